@@ -32,6 +32,8 @@ SignerHashes(e) == \A i \in 1..Len(e.sx.sigs) : \A j \in 1..Len(e.sx.sigs[i].hs)
                       Emit([k |-> "hash", kind |-> "sha256d", in |-> e.sx.sigs[i].hs[j].in, out |-> e.sx.sigs[i].hs[j].out, ref |-> 0])
 TrBegin == /\ Ev.ev = "begin"
            /\ Has(Ev, "sx") => SignerHashes(Ev)
+           \* signing through the library fills in unlocking scripts and changes nothing else
+           /\ (Has(Ev, "sx") /\ Has(Ev.sx, "frame") /\ ~Ev.sx.frame) => Reject(l, [cls |-> "signframe"])
            /\ cx' = Cx(Ev)
            /\ vm' = Begin(Ev.unlock, Ev.lock, Cx(Ev))
            /\ mode' = IF Excluded(Cx(Ev)) THEN "skip" ELSE "run"
